@@ -1,6 +1,7 @@
 import Ogen.IntRoundTrip_proof
 import Ogen.Generated.Facts_float
 import Ogen.UnixTime_proof
+import Ogen.UuidText_proof
 /-!
 # C13 — text forms of primitive values parse back to the same value (partial)
 
@@ -59,4 +60,25 @@ theorem unix_exact (u : UnixT.Unit') (t : UnixT.Instant) (h : t.WF) (hu : t.nsec
 example : fmtInt (-128) = [0x2d, 0x31, 0x32, 0x38] ∧ parseInt 8 (fmtInt (-128)) = some (-128) := by decide
 example : parseInt 8 [0x31, 0x32, 0x38] = none := by decide     -- "128" is out of range for int8
 example : parseNat 8 [0x32, 0x35, 0x35] = some 255 := by decide
+/-! ### UUID (ogen's own encoder `json.hexEncode`; the parser is the 36-byte branch of `uuid.ParseBytes`) -/
+
+/-- **every UUID is read back from the text ogen writes for it** -/
+theorem uuid_rt (v : List UInt8) (h : v.length = 16) : UuidT.parse36 (UuidT.hexEncode v) = some v :=
+  UuidT.parse_hexEncode v h
+
+/-- the text is in the syntax the format prescribes: 36 bytes, lower-case hex digits and hyphens (their places
+    are fixed by the definition of `hexEncode`: after 4, 2, 2 and 2 octets) -/
+theorem uuid_syntax (v : List UInt8) (h : v.length = 16) :
+    (UuidT.hexEncode v).length = 36 ∧
+      ∀ c ∈ UuidT.hexEncode v, (48 ≤ c ∧ c ≤ 57) ∨ (97 ≤ c ∧ c ≤ 102) ∨ c = 45 :=
+  ⟨UuidT.hexEncode_length v h, UuidT.hexEncode_alphabet v⟩
+
+/-- different UUIDs have different texts -/
+theorem uuid_text_injective (v w : List UInt8) (hv : v.length = 16) (hw : w.length = 16)
+    (h : UuidT.hexEncode v = UuidT.hexEncode w) : v = w := UuidT.hexEncode_injective v w hv hw h
+
+example : UuidT.hexEncode [0x12, 0x3e, 0x45, 0x67, 0xe8, 0x9b, 0x12, 0xd3, 0xa4, 0x56, 0x42, 0x66, 0x14, 0x17, 0x40, 0x00] =
+    [49, 50, 51, 101, 52, 53, 54, 55, 45, 101, 56, 57, 98, 45, 49, 50, 100, 51, 45, 97, 52, 53, 54, 45,
+      52, 50, 54, 54, 49, 52, 49, 55, 52, 48, 48, 48] := by decide  -- "123e4567-e89b-12d3-a456-426614174000"
+
 end C13
